@@ -62,6 +62,14 @@ struct World {
   std::atomic<int> stolenByWaiter{0};
   std::atomic<int> nestedWaits{0};
   std::atomic<int> thrown{0}, direct{0}, delivered{0};
+  // fork-join: tasks submitted by bodies to their own ConcurrentTaskSet (set index -> child ids)
+  static constexpr int kMaxSets = 128, kMaxKids = 96;
+  std::atomic<int> nextSet{0};
+  std::atomic<int> kidCount[kMaxSets];
+  std::atomic<int> kidIds[kMaxSets][kMaxKids];
+  std::atomic<int> forkJoinSubmits{0};
+  std::atomic<int> setMayCancel[kMaxSets];
+  std::atomic<int> kidSet[kMax];
   int nPool = 0;
 
   World(Case& cc, unsigned o) : c(cc), oracles(o) {
@@ -76,6 +84,21 @@ struct World {
       deliveredTag[i] = 0;
       directFlag[i] = 0;
     }
+    for (int i = 0; i < kMaxSets; ++i) {
+      kidCount[i] = 0;
+      setMayCancel[i] = 0;
+    }
+    for (int i = 0; i < kMax; ++i)
+      kidSet[i] = -1;
+  }
+  void addKid(int setIdx, int id) {
+    if (setIdx < 0 || setIdx >= kMaxSets)
+      return;
+    int k = kidCount[setIdx].fetch_add(1);
+    if (k >= kMaxKids)
+      c.inconclusive("too many fork-join children");
+    kidIds[setIdx][k] = id;
+    kidSet[id] = setIdx;
   }
   int newId(bool fq, bool skip) {
     int id = nextId.fetch_add(1);
@@ -88,15 +111,19 @@ struct World {
   }
 };
 
-void body(World& w, int id, int code, int depth);
+struct AnySet;
+void body(World& w, int id, int code, int depth, AnySet* owner);
 
 struct Fn { // the functor handed to dispenso (copy = same logical task)
   World* w;
   int id, code, depth;
+  AnySet* owner = nullptr; // the program-level set the task was submitted to (fork-join bodies)
+  Fn(World* ww, int i, int cd, int d, AnySet* o = nullptr) : w(ww), id(i), code(cd), depth(d), owner(o) {}
   void operator()() {
-    body(*w, id, code, depth);
+    body(*w, id, code, depth, owner);
   }
 };
+void forkJoin(World& w, int code, int depth, AnySet* owner);
 
 void burn(int n) {
   static std::atomic<int> sink{0};
@@ -104,7 +131,7 @@ void burn(int n) {
     sink.fetch_add(1, std::memory_order_relaxed);
 }
 
-void body(World& w, int id, int code, int depth) {
+void body(World& w, int id, int code, int depth, AnySet* owner) {
   Case& c = w.c;
   int me = dsched_tid();
   dsched_progress();
@@ -180,6 +207,11 @@ void body(World& w, int id, int code, int depth) {
         c.fail("barrier", "nested parallel_for returned with " + std::to_string(cnt.load()) + "/6 iterations");
       break;
     }
+    case 7:
+    case 8:
+    case 9:
+      forkJoin(w, code, depth, owner);
+      break;
     default:
       break;
   }
@@ -207,6 +239,7 @@ struct AnySet {
   std::unique_ptr<dispenso::TaskSet> ts;
   std::unique_ptr<dispenso::ConcurrentTaskSet> cts;
   SetRec rec;
+  int setIdx = -1;
   template <typename F>
   void schedule(F&& f) {
     if (ts)
@@ -246,9 +279,56 @@ struct AnySet {
   }
 };
 
+// fork-join recursion: a task of a ConcurrentTaskSet submits children to the same set while another
+// thread may already be inside wait()/tryWait() (README: "recursive scheduling"; the graph executor
+// and parallel_invoke examples use the pattern). 7 = schedule, 8 = scheduleBulk(2), 9 = bulk FQ.
+void forkJoin(World& w, int code, int depth, AnySet* owner) {
+  if (!owner || !owner->cts || depth >= 2) {
+    burn(2);
+    return;
+  }
+  bool skip = owner->setIdx >= 0 && owner->setIdx < World::kMaxSets && w.setMayCancel[owner->setIdx].load();
+  w.forkJoinSubmits.fetch_add(1);
+  w.openSubmits.fetch_add(1);
+  int ids[2];
+  int n = 0;
+  if (code == 7) {
+    ids[n++] = w.newId(false, skip);
+    owner->cts->schedule(Fn{&w, ids[0], (depth == 0 && (ids[0] & 3) == 0) ? 8 : 1, depth + 1, owner});
+  } else {
+    auto gen = [&](size_t) {
+      int id = w.newId(code == 9, skip);
+      if (n < 2)
+        ids[n++] = id;
+      return Fn{&w, id, 1, depth + 1, owner};
+    };
+    if (code == 8)
+      owner->cts->scheduleBulk(2, gen);
+    else
+      owner->cts->scheduleBulk(2, gen, dispenso::ForceQueuingTag());
+  }
+  w.openSubmits.fetch_sub(1);
+  for (int i = 0; i < n; ++i) {
+    w.submitReturned[ids[i]] = 1;
+    w.addKid(owner->setIdx, ids[i]);
+  }
+  burn((int)w.c.p.i("fjburn", 3)); // the parent keeps working after the fork: the waiter must not return before it leaves
+}
+
 void checkBarrier(World& w, AnySet& s, const char* what) {
   if (!(w.oracles & O_BARRIER))
     return;
+  if (s.setIdx >= 0 && s.setIdx < World::kMaxSets) {
+    int nk = std::min<int>(w.kidCount[s.setIdx].load(), World::kMaxKids);
+    for (int k = 0; k < nk; ++k) {
+      int id = w.kidIds[s.setIdx][k].load();
+      bool fin = w.left[id].load() == 1;
+      bool skipped = w.runs[id].load() == 0;
+      if (!fin && !(w.setMayCancel[s.setIdx].load() && skipped))
+        w.c.fail("barrier", std::string(what) + " returned while fork-join child " + std::to_string(id) +
+                                " (submitted to the set by one of its own tasks) had not finished (runs=" + std::to_string(w.runs[id].load()) + ")");
+    }
+  }
   for (int id : s.rec.ids) {
     bool fin = w.left[id].load() == 1;
     bool skipped = w.runs[id].load() == 0;
@@ -287,12 +367,14 @@ void producer(World& w, const std::string& prog, dispenso::ConcurrentTaskSet* G,
     int id = w.newId(fq, s ? s->rec.mayCancel || code == 2 : false);
     if (s && code == 2) {
       s->rec.mayCancel = true;
+      if (s->setIdx >= 0 && s->setIdx < World::kMaxSets)
+        w.setMayCancel[s->setIdx] = 1;
       for (int o : s->rec.ids)
         w.mayskip[o] = 1;
     }
     w.openSubmits.fetch_add(1);
     try {
-      Fn f{&w, id, code, 0};
+      Fn f{&w, id, code, 0, s};
       if (!s) {
         if (fq)
           w.pool->schedule(f, dispenso::ForceQueuingTag());
@@ -315,6 +397,8 @@ void producer(World& w, const std::string& prog, dispenso::ConcurrentTaskSet* G,
     std::vector<int> ids;
     if (s && code == 2) {
       s->rec.mayCancel = true;
+      if (s->setIdx >= 0 && s->setIdx < World::kMaxSets)
+        w.setMayCancel[s->setIdx] = 1;
       for (int o : s->rec.ids)
         w.mayskip[o] = 1;
     }
@@ -322,7 +406,7 @@ void producer(World& w, const std::string& prog, dispenso::ConcurrentTaskSet* G,
     auto gen = [&](size_t) {
       int id = w.newId(fq, skip);
       ids.push_back(id);
-      return Fn{&w, id, code, 0};
+      return Fn{&w, id, code, 0, s};
     };
     w.openSubmits.fetch_add(1);
     try {
@@ -402,6 +486,7 @@ void producer(World& w, const std::string& prog, dispenso::ConcurrentTaskSet* G,
     } else if (a == 't') {
       if (b == 'o') {
         auto s = std::make_unique<AnySet>();
+        s->setIdx = w.nextSet.fetch_add(1);
         char kind = t.size() > 2 ? t[2] : 't';
         long mult = t.size() > 3 ? strtol(t.c_str() + 3, nullptr, 10) : 4;
         if (mult < 1)
@@ -428,6 +513,8 @@ void producer(World& w, const std::string& prog, dispenso::ConcurrentTaskSet* G,
         doWait(*top, true, (int)x);
       else if (b == 'c') {
         top->rec.mayCancel = true;
+        if (top->setIdx >= 0 && top->setIdx < World::kMaxSets)
+          w.setMayCancel[top->setIdx] = 1;
         for (int id : top->rec.ids)
           w.mayskip[id] = 1;
         top->cancel();
@@ -524,7 +611,8 @@ void runProgram(Case& c, unsigned oracles) {
   if (w.oracles & O_LEDGER) {
     for (int id = 0; id < total; ++id) {
       int r = w.runs[id].load();
-      if (r == 0 && !w.mayskip[id].load())
+      bool maySkip = w.mayskip[id].load() || (w.kidSet[id].load() >= 0 && w.setMayCancel[w.kidSet[id].load()].load());
+      if (r == 0 && !maySkip)
         c.fail("lost", "task " + std::to_string(id) + " never ran although ~ThreadPool has returned (" + std::to_string(total) + " tasks)");
       if (r > 1)
         c.fail("dup", "task " + std::to_string(id) + " ran " + std::to_string(r) + " times");
@@ -559,6 +647,8 @@ void runProgram(Case& c, unsigned oracles) {
     c.cls("exceptions_rethrown_by_wait", w.delivered.load());
   if (w.maxInflight.load() >= 2)
     c.cls("max_inflight>=2");
+  if (w.forkJoinSubmits.load())
+    c.cls("fork_join_submissions_from_set_tasks", w.forkJoinSubmits.load());
   delete wp;
 }
 
@@ -567,6 +657,7 @@ void runProgram(Case& c, unsigned oracles) {
 struct GenCfg {
   bool poolOps, sets, fq, throwing, nested, nestedWait, resize, sharedG;
   int maxTasks;
+  bool forkJoin = true;
 };
 
 std::string genBodyCode(Rng& r, const GenCfg& g, bool inSet) {
@@ -580,6 +671,12 @@ std::string genBodyCode(Rng& r, const GenCfg& g, bool inSet) {
   }
   if (g.throwing && inSet)
     codes.push_back(2);
+  if (g.forkJoin && inSet) { // only meaningful for ConcurrentTaskSet; a TaskSet task treats it as a no-op body
+    codes.push_back(7);
+    codes.push_back(8);
+    if (g.fq)
+      codes.push_back(9);
+  }
   return std::to_string(codes[r.below(codes.size())]);
 }
 
@@ -707,6 +804,39 @@ void genC47(Rng& r, KV& kv, const Opts& o) {
   kv.set("mult", r.pick<long>({1, 1, 2}));
 }
 
+// focused fork-join family for C02: one or two parents on a ConcurrentTaskSet fork children onto the
+// same set (single / bulk / force-queued bulk) and keep working while the submitter is in wait(),
+// a tryWait() loop or the destructor
+void genC02fj(Rng& r, KV& kv, const Opts& o) {
+  long n = r.range(1, o.thorough() ? 6 : 4);
+  kv.set("n", n);
+  kv.set("mult", r.pick<long>({1, 2, 32, 32}));
+  kv.set("poll", r.chance(1, 6) ? 1L : 0L);
+  kv.set("P", 1L);
+  if (r.chance(1, 4))
+    kv.set("idle", r.pick<long>({1, 150}));
+  std::string s = std::string("to") + (r.chance(1, 2) ? "l" : "h") + std::to_string(r.pick<long>({1, 2, 4, 4})) + " ";
+  long parents = r.range(1, 3);
+  for (long i = 0; i < parents; ++i) {
+    s += r.chance(1, 3) ? "tq" : "ts";
+    s += std::to_string(r.pick<long>({7, 8, 8, 9, 9})) + " ";
+    if (r.chance(1, 4))
+      s += "z" + std::to_string(r.range(1, 30)) + " ";
+  }
+  long fin = r.range(0, 9);
+  if (fin < 5)
+    s += "tw tx ";
+  else if (fin < 8)
+    s += "ty" + std::to_string(r.range(0, 2)) + " ty" + std::to_string(r.range(0, 3)) + " tx ";
+  else
+    s += "tx ";
+  kv.set("prog0", s);
+  kv.set("fjburn", r.pick<long>({0, 3, 10, 30, 80}));
+  kv.setu("mp", 600000);
+  kv.setu("fp", 400000);
+  kv.setu("ep", 3000);
+}
+
 void runC01(Case& c) {
   runProgram(c, O_LEDGER);
   c.nontrivial = c.classes.count("bodies_on>=2_threads") && c.classes.count("body_ran_elsewhere_during_open_submit");
@@ -714,6 +844,10 @@ void runC01(Case& c) {
 void runC02(Case& c) {
   runProgram(c, O_BARRIER | O_LEDGER);
   c.nontrivial = c.classes.count("body_ran_while_a_wait_was_open") > 0;
+}
+void runC02fj(Case& c) {
+  runProgram(c, O_BARRIER | O_LEDGER);
+  c.nontrivial = c.classes.count("body_ran_while_a_wait_was_open") > 0 && c.classes.count("fork_join_submissions_from_set_tasks") > 0;
 }
 void runC03(Case& c) {
   runProgram(c, O_BARRIER | O_LEDGER);
@@ -903,7 +1037,8 @@ void genC09(Rng& r, KV& kv, const Opts& o) {
   kv.set("pre", r.pick<long>({0, 0, 1, 2, 3})); // 0: none, 1: burn few points, 2: sleep until parked, 3: busy tasks
   kv.set("burn", r.range(0, 400));
   kv.set("busy", r.range(1, n));
-  kv.set("poll", r.chance(1, 4) ? 1L : 0L);
+  kv.set("poll", r.chance(1, 3) ? 1L : 0L);
+  kv.set("period", r.pick<long>({200, 200, 5000, 2000000})); // poll period, microseconds
   kv.setu("mp", 800000);
   kv.setu("fp", 400000);
   kv.set("sp", 0L);
@@ -912,6 +1047,7 @@ void genC09(Rng& r, KV& kv, const Opts& o) {
 void runC09(Case& c) {
   long n = c.p.i("n"), action = c.p.i("action"), to = c.p.i("to"), pre = c.p.i("pre");
   bool poll = c.p.i("poll") != 0;
+  long period = c.p.i("period", 200);
   IdleWatch iw;
   g_idle = &iw;
   dsched_on_jump(idleJumpCb);
@@ -920,12 +1056,14 @@ void runC09(Case& c) {
   {
     auto pool = std::make_unique<dispenso::ThreadPool>((size_t)n);
     if (poll || action == 3)
-      pool->setSignalingWake(false, std::chrono::microseconds(200));
+      pool->setSignalingWake(false, std::chrono::microseconds(period));
     if (pre == 1)
       burn((int)c.p.i("burn"));
     else if (pre == 2) {
       dsched_sleep_ns(350000000ull);
       dsched_settle(200000);
+      if (poll || action == 3) // also land inside a poll period, away from its expiry
+        dsched_sleep_ns((uint64_t)period * 1000ull * 5 / 2 + 777);
     } else if (pre == 3) {
       long busy = c.p.i("busy");
       for (long i = 0; i < busy; ++i)
@@ -936,7 +1074,11 @@ void runC09(Case& c) {
     int parkedAtCall = dsched_count_blocked(DS_WHY_FUTEX, 1);
     uint64_t t0 = dsched_now();
     c.phase = action == 0 ? "pool-dtor" : action == 1 ? "resize" : "setSignalingWake";
-    iw.watch = pollMode ? 0 : 1;
+    // stop()/wakeAll() must wake parked workers in both modes: a poll-mode worker parks on the same
+    // group futex with its poll period as timeout, and "without relying on the sleep backstop" means
+    // the call may not have to wait for that timeout either (no virtual-time jump to a worker's
+    // timed wait while the call is in progress).
+    iw.watch = 1;
     long expectAlive = 0;
     if (action == 0) {
       pool.reset();
@@ -945,7 +1087,7 @@ void runC09(Case& c) {
       pool->resize((ssize_t)to);
       expectAlive = to;
     } else if (action == 2) {
-      pool->setSignalingWake(false, std::chrono::microseconds(200));
+      pool->setSignalingWake(false, std::chrono::microseconds(period));
       expectAlive = n;
     } else {
       pool->setSignalingWake(true, std::chrono::microseconds(100000));
@@ -954,10 +1096,14 @@ void runC09(Case& c) {
     iw.watch = 0;
     uint64_t dt = dsched_now() - t0;
     if (iw.backstopJumps.load() > 0)
-      c.fail("backstop:" + c.phase, c.phase + " on a wake-mode pool (n=" + std::to_string(n) + ", " + std::to_string(parkedAtCall) +
-                                         " parked) returned only after " + std::to_string(iw.backstopJumps.load()) + " backstop expiry(ies)");
+      c.fail(std::string(pollMode ? "poll-timeout:" : "backstop:") + c.phase,
+             c.phase + " on a " + (pollMode ? "poll-mode (period " + std::to_string(period) + " us)" : std::string("wake-mode")) + " pool (n=" +
+                 std::to_string(n) + ", " + std::to_string(parkedAtCall) + " parked) returned only after " +
+                 std::to_string(iw.backstopJumps.load()) + " expiry(ies) of a worker's timed sleep (" + std::to_string(dt / 1000) + " us virtual)");
     if (pollMode && dt > 50000000ull)
-      c.fail("slow:" + c.phase, c.phase + " in poll mode took " + std::to_string(dt / 1000) + " us of virtual time (poll period 200us, n=" + std::to_string(n) + ")");
+      c.fail("slow:" + c.phase, c.phase + " in poll mode took " + std::to_string(dt / 1000) + " us of virtual time (poll period " + std::to_string(period) + "us, n=" + std::to_string(n) + ")");
+    if (pollMode)
+      c.cls("poll_mode_period_us:" + std::to_string(period));
     int alive = dsched_count_alive() - aliveBefore;
     if (alive != expectAlive)
       c.fail("old-workers-alive:" + c.phase, "after " + c.phase + " returned " + std::to_string(alive) + " worker threads exist, expected " + std::to_string(expectAlive));
@@ -1410,6 +1556,8 @@ const vf::Prop kProps[] = {
     {"C01", "prog", genC01, runC01, vf::kE1, 3000, 120000,
      ">=2 threads executed task bodies and a body ran on another thread while a submission call was still open"},
     {"C02", "prog", genC02, runC02, vf::kE1, 3000, 120000, "a task of some set ran on another thread while a wait()/tryWait() call was open"},
+    {"C02", "forkjoin", genC02fj, runC02fj, vf::kE1, 1500, 60000,
+     "a set task forked children onto its own set and some task of the set ran while the submitter's wait()/tryWait() was open"},
     {"C03", "prog", genC03, runC03, vf::kE1, 3000, 100000, "a resize() call was entered while a submission call was open on another thread"},
     {"C05", "prog", genC05, runC05, vf::kE1, 3000, 120000, ">=2 bodies threw, or a throwing body's exception propagated directly out of schedule()"},
     {"C06", "prog", genC06, runC06, vf::kE1, 2500, 100000, "the program contains nested waits and some body ran while a wait was open"},
